@@ -106,8 +106,10 @@ class BeamFresh:
                 have.update(bc[5])
         if not set(self.un) <= have:
             return False
-        # a hinge frees the relative rotation: with one clamped point only, the members beyond the hinge are a mechanism
-        return len(self.d_points) >= (2 if self.hinged else 1)
+        # a hinge frees the relative rotation: every member beyond the hinge whose far end is not clamped is a mechanism
+        # (a singular system whose "solution" is round-off: live and rebuilt frames would only agree by accident)
+        ends = {0, 2, len(self.pts) - 1}
+        return ends <= self.d_points if self.hinged else len(self.d_points) >= 1
 
     def _connected(self):
         return any(bc[0] == "L" for bc in self.bcs)
